@@ -125,9 +125,16 @@ def check_ack_table(ctx):
     ctx.touch(f)
     cfg = cfg_of(f.node)
     errs = [n for n in cfg.real_nodes() if isinstance(n.ast, ast.Assign) and "ERACK.CEID_UNKNOWN" in norm(n.ast.value)]
-    ok = len(errs) == 1 and any(t.startswith("self._set_ce_state(") and not pol for t, pol in cnd.facts(cfg, errs[0]))
+    def result_facts(n):
+        """Facts about the result of _set_ce_state at n, a local that holds the result spelled out."""
+        out = set()
+        for t, v in cfg.dominating_conditions(n):
+            out |= cnd.canon(rules.expand_ast(f.node, t), v)
+        return {(t, pol) for t, pol in out if t.startswith("self._set_ce_state(")}
+
+    ok = len(errs) == 1 and any(not pol for _, pol in result_facts(errs[0]))
     accepts = [n for n in cfg.real_nodes() if isinstance(n.ast, ast.Assign) and "ERACK.ACCEPTED" in norm(n.ast.value)]
-    ok = ok and bool(accepts) and not any(t.startswith("self._set_ce_state(") and not pol for n in accepts for t, pol in cnd.facts(cfg, n))
+    ok = ok and bool(accepts) and not any(not pol for n in accepts for _, pol in result_facts(n))
     ctx.ob("C12.T1", f.qualname, ok, "S2F38 is CEID_UNKNOWN iff _set_ce_state reports an unknown CEID" if ok else "ERACK is not derived from _set_ce_state's result", where=f.where)
     c = [c for c in calls_in(f.node) if call_name(c) == "self._set_ce_state"]
     got = [rules.expand(f.node, a) for a in c[0].args] if c else None
